@@ -60,7 +60,9 @@ func (x *Exec) paramTerms(fn *ssa.Function, st *State) []Term {
 	var ps []Term
 	for _, p := range fn.Params {
 		t := x.vc.fresh("p_"+mangle(p.Name()), x.vc.sortOf(p.Type()))
+		x.wfDeep = true
 		x.wf(st, t, p.Type())
+		x.wfDeep = false
 		switch underlying(p.Type()).(type) {
 		case *types.Pointer, *types.Map:
 			x.vc.assert(le(t, st.top))
@@ -102,6 +104,7 @@ func (e *Engine) verifyContract(c *Contract) (res *UnitResult) {
 		fr.regs[p] = x.rootParams[i]
 	}
 	x.assumeGlobalInvariants(fr, st)
+	x.assumePureAxioms(fr, st)
 	// requires
 	var pres []Term
 	for _, cl := range c.Requires {
@@ -112,7 +115,7 @@ func (e *Engine) verifyContract(c *Contract) (res *UnitResult) {
 	pre = x.vc.name("pre", pre)
 	x.vc.assert(pre)
 	// vacuity guard: the precondition is satisfiable
-	if len(c.Requires) > 0 {
+	if len(c.Requires) > 0 && !c.Trusted {
 		x.oblige(fr, "cover", "requires satisfiable", st, tFalse, fn.Pos())
 	}
 	if c.HasMod {
@@ -135,6 +138,8 @@ func (x *Exec) atReturn(fr *Frame, st *State, vals []Term, pos token.Pos) {
 		return
 	}
 	args := append(append([]Term{}, x.rootParams...), vals...)
+	// vacuity guard: this return is reachable under the assumptions made so far
+	x.oblige(fr, "cover", "return reachable", st, tFalse, pos)
 	for i, cl := range c.Ensures {
 		if len(cl.Tags) > 0 && x.eng.CurProp != "" && !anyCommon(cl.Tags, []string{x.eng.CurProp}) {
 			continue // clause belongs to another property's check
@@ -171,6 +176,7 @@ func (e *Engine) verifyLemma(fn *ssa.Function, props []string) (res *UnitResult)
 		fr.regs[p] = x.rootParams[i]
 	}
 	x.assumeGlobalInvariants(fr, st)
+	x.assumePureAxioms(fr, st)
 	x.stack = append(x.stack, fn)
 	x.lemmaMode = true
 	exit, _ := x.runFunction(fr, st)
@@ -441,4 +447,90 @@ func anyCommon(a, b []string) bool {
 		}
 	}
 	return false
+}
+
+// assumePureAxioms asserts, for every pure function under contract whose parameters carry
+// no references, the universally quantified form of its postconditions over the function's
+// uninterpreted symbol:  forall args. ensures(args, F(args)),  with F(args) as the pattern.
+// (Inside quantifier bodies calls to such functions are bare applications of that symbol;
+// this is what makes their contracts usable there.) Sound because the contract is verified
+// (or listed as trusted) and the function reads nothing but its arguments and package-level
+// tables covered by global invariants.
+func (x *Exec) assumePureAxioms(fr *Frame, st *State) {
+	if fr.fn.Pkg == nil {
+		return
+	}
+	tp := x.eng.Targets[fr.fn.Pkg.Pkg.Path()]
+	if tp == nil {
+		return
+	}
+	for _, k := range sortedKeys(tp.Contracts) {
+		c := tp.Contracts[k]
+		if !c.Pure || len(c.Ensures) == 0 || c.Fn == fr.fn {
+			continue
+		}
+		sig := c.Fn.Signature
+		if sig.Results().Len() != 1 || !scalarParams(sig) {
+			continue
+		}
+		name := "ax!" + mangle(shortFn(c.Fn))
+		x.vc.lets = map[string][]letDef{}
+		x.ghostDepth++ // keep the let-definitions of this binder across the nested evaluations
+		x.vc.openBinder(name)
+		var bvs []Term
+		var decl []string
+		for i, p := range c.Fn.Params {
+			bv := Term{fmt.Sprintf("%s!%d", name, i), x.vc.sortOf(p.Type())}
+			bvs = append(bvs, bv)
+			decl = append(decl, fmt.Sprintf("(%s %s)", bv.S, bv.Sort))
+		}
+		res := x.pureResult(c, 0, bvs, sig.Results().At(0).Type(), st)
+		var pres, posts []Term
+		func() {
+			defer func() {
+				if r := recover(); r != nil {
+					if _, ok := r.(*engError); ok {
+						posts = nil // clause not expressible inside a binder: skip the axiom
+						return
+					}
+					panic(r)
+				}
+			}()
+			for _, cl := range c.Requires {
+				pres = append(pres, x.evalGhost(fr, x.ghostOf(c, cl.Ghost), bvs, nil, st, nil))
+			}
+			for _, cl := range c.Ensures {
+				if cl.Known {
+					continue
+				}
+				posts = append(posts, x.evalGhost(fr, x.ghostOf(c, cl.Ghost), append(append([]Term{}, bvs...), res), nil, st, st))
+			}
+		}()
+		body, _ := x.vc.closeBinder(implies(and(pres...), and(posts...)))
+		x.ghostDepth--
+		if len(posts) == 0 || len(bvs) == 0 {
+			continue
+		}
+		x.vc.assert(Term{fmt.Sprintf("(forall (%s) (! %s :pattern (%s)))", strings.Join(decl, " "), body.S, res.S), SBool})
+		x.vc.assumed["pure-function axiom for "+c.Key] = true
+	}
+}
+
+func scalarParams(sig *types.Signature) bool {
+	ok := func(t types.Type) bool {
+		switch u := underlying(t).(type) {
+		case *types.Basic:
+			return u.Kind() != types.UnsafePointer
+		}
+		return false
+	}
+	if sig.Recv() != nil && !ok(sig.Recv().Type()) {
+		return false
+	}
+	for i := 0; i < sig.Params().Len(); i++ {
+		if !ok(sig.Params().At(i).Type()) {
+			return false
+		}
+	}
+	return true
 }
